@@ -722,6 +722,37 @@ func c10Render(p *Path) string {
 	return m.render()
 }
 
+// c10RenderList renders the same model from the flattened attribute list (GetPathAttrs: what is serialised into
+// UPDATEs, hashed and shown through the API) instead of the per-attribute accessors; the two views must agree.
+func c10RenderList(p *Path) string {
+	m := &c10Model{med: -1, lp: -1, origin: -1, nexthop: p.GetNexthop()}
+	for _, a := range p.GetPathAttrs() {
+		switch v := a.(type) {
+		case *bgp.PathAttributeOrigin:
+			m.origin = int(v.Value)
+		case *bgp.PathAttributeAsPath:
+			for _, s := range v.Value {
+				m.path = append(m.path, c03Seg{T: s.GetType(), AS: s.GetAS()})
+			}
+		case *bgp.PathAttributeMultiExitDisc:
+			m.med = int64(v.Value)
+		case *bgp.PathAttributeLocalPref:
+			m.lp = int64(v.Value)
+		case *bgp.PathAttributeCommunities:
+			m.comms = v.Value
+		case *bgp.PathAttributeExtendedCommunities:
+			for _, e := range v.Value {
+				m.exts = append(m.exts, c10ExtModel(e))
+			}
+		case *bgp.PathAttributeLargeCommunities:
+			for _, l := range v.Values {
+				m.large = append(m.large, l.String())
+			}
+		}
+	}
+	return m.render()
+}
+
 // ---- the reference interpreter ----
 
 type c10Env struct {
@@ -1291,6 +1322,9 @@ func runC10(c c10Case, st *verifkit.Stats) *verifkit.Failure {
 			if got != nil {
 				if g := c10Render(got); g != wantModel.render() {
 					return nil, nil, verifkit.Failf("attributes", "route %d %s: ApplyPolicy yields\n  %s\nthe documented model yields\n  %s\nfrom\n  %s\n  program: %s", ri, what, g, wantModel.render(), inModel.render(), verifkit.JSON(c10Program(env.c, a)))
+				}
+				if g := c10RenderList(got); g != wantModel.render() {
+					return nil, nil, verifkit.Failf("attribute-list", "route %d %s: the attribute list of the resulting route (what is sent) says\n  %s\nthe documented model yields\n  %s\nfrom\n  %s\n  program: %s", ri, what, g, wantModel.render(), inModel.render(), verifkit.JSON(c10Program(env.c, a)))
 				}
 				// the route the policy hands on is sent as it is: the length each attribute reports (what the UPDATE
 				// packer budgets with) has to be the length it serialises to
